@@ -169,8 +169,9 @@ func whitebox(c *vk.C, rng *rand.Rand, k int) {
 	c.Count("whitebox_early_readers", 1)
 
 	type tdw struct {
-		id  string
-		ctx context.Context //nolint:containedctx
+		id     string
+		ctx    context.Context //nolint:containedctx
+		cancel context.CancelFunc // of the caller's own parent context
 	}
 
 	var waiters []tdw
@@ -194,15 +195,33 @@ func whitebox(c *vk.C, rng *rand.Rand, k int) {
 				trace = append(trace, fmt.Sprintf("remove-unknown %q", id))
 			}
 		default:
-			tctx, err := cache.ContextWithTeardown(ctx, resource.NewMetadata(ns, typ, id, resource.VersionUndefined))
+			// every caller has its own parent context; several callers may wait on the same id
+			if len(waiters) > 0 && rng.IntN(2) == 0 {
+				id = waiters[rng.IntN(len(waiters))].id
+			}
+
+			pctx, pcancel := context.WithCancel(ctx)
+
+			tctx, err := cache.ContextWithTeardown(pctx, resource.NewMetadata(ns, typ, id, resource.VersionUndefined))
 			if err != nil {
+				pcancel()
 				fail("cached-teardown-context-failed", map[string]any{"id": id, "err": err.Error()})
 
 				return
 			}
 
-			waiters = append(waiters, tdw{id, tctx})
+			waiters = append(waiters, tdw{id, tctx, pcancel})
 			trace = append(trace, fmt.Sprintf("ctx-with-teardown %q", id))
+		}
+
+		// one of the callers goes away (its parent context ends): that is its own business, the others keep waiting
+		if len(waiters) > 1 && rng.IntN(4) == 0 {
+			i := rng.IntN(len(waiters))
+			waiters[i].cancel()
+			trace = append(trace, fmt.Sprintf("caller of ctx-with-teardown %q went away", waiters[i].id))
+			waiters = slices.Delete(waiters, i, i+1)
+
+			c.Count("whitebox_teardown_callers_gone", 1)
 		}
 
 		c.Count("whitebox_steps", 1)
